@@ -1,4 +1,6 @@
 import Driver.IdPool
+import Driver.Trie
+import Driver.Dist
 /-! `waspmodel <domain> [args]` — executes the Lean models on op lines from stdin. -/
 open Driver
 
@@ -12,4 +14,8 @@ def main (args : List String) : IO UInt32 := do
     match a.toInt?, b.toInt? with
     | some mn, some mx => Driver.IdPool.bfsMain mn mx; return 0
     | _, _ => IO.eprintln "bad args"; return 2
+  | ["subtree"] => loop stdin stdout Driver.Trie.stepSub Wasp.Trie.Node.empty; return 0
+  | ["rettree"] => loop stdin stdout Driver.Trie.stepRet Wasp.Trie.Node.empty; return 0
+  | ["match"] => loop stdin stdout Driver.Trie.stepMatch (); return 0
+  | ["dist"] => loop stdin stdout Driver.Dist.step {}; return 0
   | _ => IO.eprintln "usage: waspmodel <domain>"; return 2
